@@ -2,6 +2,7 @@ import EaselModel.Stats.HistRat
 import EaselModel.Stats.HistQuery
 import EaselModel.Stats.HistCens
 import EaselModel.Stats.HistMass
+import EaselModel.Stats.HistCompose
 import EaselModel.Stats.FitReal
 import EaselModel.Stats.GumbelConcave
 /-! # C11 — property theorems (statements + glue only; lemmas live in `EaselModel/Stats/*`)
@@ -78,6 +79,14 @@ theorem tail_query_agrees (h : Hist ℚ) (vs : List ℚ) (acc : Accounts h vs) (
       h'.x.toList.Pairwise (· ≤ ·) ∧ h'.x.toList.Perm vs ∧
       (∀ x ∈ h'.x.toList.take mid, x ≤ phi) ∧ (∀ x ∈ h'.x.toList.drop mid, phi < x) ∧ h'.isDone = true ∧ h'.obs = h.obs :=
   getTail_spec h vs acc hf hs phi
+
+/-- **end to end**: `CreateFull(bmin,bmax,w)` with `w > 0`, ANY sequence of `Add` calls (accepted or refused, any growth), then
+    `GetTail(phi)`: `*ret_z` = number of accepted values `≤ phi`, and the returned vector is the sorted accepted values `> phi`. -/
+theorem collect_then_tail (bmin bmax w : ℚ) (hw : 0 < w) (h0 : Hist ℚ) (hc : Hist.createFull bmin bmax w = .val (some h0)) (xs : List ℚ) (phi : ℚ) :
+    ∃ h vs h' mid, Hist.addMany h0 [] xs = .val (h, vs) ∧ h.getTail phi = .val (.ok, h', mid) ∧
+      mid = vs.countP (fun x => decide (x ≤ phi)) ∧ h'.x.toList.Pairwise (· ≤ ·) ∧ h'.x.toList.Perm vs ∧
+      (∀ x ∈ h'.x.toList.drop mid, phi < x) ∧ (∀ x ∈ h'.x.toList.take mid, x ≤ phi) :=
+  collected_tail bmin bmax w hw h0 hc xs phi
 
 /-- `esl_histogram_GetRank(rank)`: eslEINVAL outside `1..n`, otherwise element `n - rank` of the sorted raw data. -/
 theorem rank_query_agrees (h : Hist ℚ) (vs : List ℚ) (acc : Accounts h vs) (hf : h.isFull = true) (hs : SortedFlagOK h) (r : Int) :
